@@ -795,4 +795,108 @@ EXTRA = [
             if not self.coverage.contains(query.coord, query.srs):
                 return None
         return self._layer.get_info(query)""", """        return self._layer.get_info(query)""", 'C10.f'),
+    # ---------------------------------------------------------------- C16
+    M('M-C16a-limit-no-ymax', 'mapproxy/grid.py', "if x < 0 or y < 0 or x >= grid[0] or y >= grid[1]:\n            return None",
+      "if x < 0 or y < 0 or x >= grid[0]:\n            return None", 'C16.a'),
+    M('M-C16a-limit-off-by-one', 'mapproxy/grid.py', "if x < 0 or y < 0 or x >= grid[0] or y >= grid[1]:\n            return None",
+      "if x < 0 or y < 0 or x > grid[0] or y >= grid[1]:\n            return None", 'C16.a'),
+    M('M-C16a-limit-axis', 'mapproxy/grid.py', "if x < 0 or y < 0 or x >= grid[0] or y >= grid[1]:\n            return None",
+      "if x < 0 or y < 0 or x >= grid[1] or y >= grid[0]:\n            return None", 'C16.a|C03.a'),
+    E('E-C16a-chained-form', 'mapproxy/grid.py', "if x < 0 or y < 0 or x >= grid[0] or y >= grid[1]:\n            return None",
+      "if not (0 <= x < grid[0]) or not (0 <= y < grid[1]):\n            return None", 'chained comparison form'),
+    M('M-C16a-tilelist-no-upper', 'mapproxy/grid.py', "if x < 0 or y < 0 or x >= x_limit or y >= y_limit:", "if x < 0 or y < 0:", 'C16.a'),
+    M('M-C16a-level-upper', 'mapproxy/grid.py', "elif z < 0 or z >= self.levels:", "elif z < 0 or z > self.levels:", 'C16.a'),
+    M('M-C16b-no-format-check', 'mapproxy/service/tile.py', """        if tile_request.format != self.format:
+            raise RequestError('invalid format (%s). this tile set only supports (%s)'
+                               % (tile_request.format, self.format), request=tile_request,
+                               code='InvalidParameterValue')
+""", """        if False:
+            raise RequestError('invalid format (%s). this tile set only supports (%s)'
+                               % (tile_request.format, self.format), request=tile_request,
+                               code='InvalidParameterValue')
+""", 'C16.b'),
+    M('M-C16b-outofrange-swallowed', 'mapproxy/service/tile.py', """        if tile_coord is None:
+            raise RequestError('The requested tile is outside the bounding box'
+                               ' of the tile map.', request=tile_request,
+                               code='TileOutOfRange')
+        if tile_request.origin == 'nw'""", """        if tile_coord is None:
+            return None
+        if tile_request.origin == 'nw'""", 'C16.a|C02.b'),
+    M('M-C16b-wmts-lookup-before-check', 'mapproxy/service/wmts.py', """    def tile(self, request):
+        self.check_request(request)
+
+        tile_layer = self.layers[request.layer][request.tilematrixset]""", """    def tile(self, request):
+        request.make_request()
+        tile_layer = self.layers[request.layer][request.tilematrixset]
+        self.check_request(request)
+""", 'C16.b'),
+    E('E-C16b-coord-before-format', 'mapproxy/service/tile.py', """        if info_request.format != self.format:
+            raise RequestError('invalid format (%s). this tile set only supports (%s)'
+                               % (info_request.format, self.format), request=info_request,
+                               code='InvalidParameterValue')
+
+        tile_coord = self._internal_tile_coord(info_request)
+""", """        tile_coord = self._internal_tile_coord(info_request)
+        if info_request.format != self.format:
+            raise RequestError('invalid format (%s). this tile set only supports (%s)'
+                               % (info_request.format, self.format), request=info_request,
+                               code='InvalidParameterValue')
+""", 'coordinate computed before the format test, both still before the load'),
+    M('M-C16c-check-after-render', 'mapproxy/service/wms.py', """    def map(self, map_request):
+        self.check_map_request(map_request)
+
+        params = map_request.params""", """    def map(self, map_request):
+        params = map_request.params""", 'C16.c'),
+    M('M-C16c-tile-limit-logged', 'mapproxy/layer.py', """        if self.max_tile_limit and num_tiles >= self.max_tile_limit:
+            raise MapBBOXError("too many tiles, max_tile_limit: %s, num_tiles: %s" % (self.max_tile_limit, num_tiles))
+""", """        if self.max_tile_limit and num_tiles >= self.max_tile_limit:
+            log.warning("too many tiles, max_tile_limit: %s, num_tiles: %s" % (self.max_tile_limit, num_tiles))
+""", 'C16.c'),
+    M('M-C16c-limit-after-load', 'mapproxy/layer.py', """        num_tiles = tile_grid[0] * tile_grid[1]
+
+        if self.max_tile_limit and num_tiles >= self.max_tile_limit:
+            raise MapBBOXError("too many tiles, max_tile_limit: %s, num_tiles: %s" % (self.max_tile_limit, num_tiles))
+
+        if query.tiled_only:
+            if num_tiles > 1:
+                raise MapBBOXError("not a single tile")
+            bbox = query.bbox
+            if not bbox_equals(bbox, src_bbox, abs((bbox[2]-bbox[0])/query.size[0]/10),
+                               abs((bbox[3]-bbox[1])/query.size[1]/10)):
+                raise MapBBOXError("query does not align to tile boundaries")
+
+        with self.tile_manager.session():
+            tile_collection = self.tile_manager.load_tile_coords(
+                affected_tile_coords, with_metadata=query.tiled_only, dimensions=query.dimensions)
+""", """        num_tiles = tile_grid[0] * tile_grid[1]
+
+        if query.tiled_only:
+            if num_tiles > 1:
+                raise MapBBOXError("not a single tile")
+            bbox = query.bbox
+            if not bbox_equals(bbox, src_bbox, abs((bbox[2]-bbox[0])/query.size[0]/10),
+                               abs((bbox[3]-bbox[1])/query.size[1]/10)):
+                raise MapBBOXError("query does not align to tile boundaries")
+
+        with self.tile_manager.session():
+            tile_collection = self.tile_manager.load_tile_coords(
+                affected_tile_coords, with_metadata=query.tiled_only, dimensions=query.dimensions)
+
+        if self.max_tile_limit and num_tiles >= self.max_tile_limit:
+            raise MapBBOXError("too many tiles, max_tile_limit: %s, num_tiles: %s" % (self.max_tile_limit, num_tiles))
+""", 'C16.c'),
+    E('E-C16c-unpacked-area', 'mapproxy/layer.py', "        num_tiles = tile_grid[0] * tile_grid[1]\n", "        cols, rows = tile_grid\n        num_tiles = cols * rows\n", 'w, h = size; w * h'),
+    E('E-C16c-gt', 'mapproxy/layer.py', "if self.max_tile_limit and num_tiles >= self.max_tile_limit:", "if self.max_tile_limit and num_tiles > self.max_tile_limit:", 'boundary value not fixed'),
+    M('M-C16d-missing-for-none', 'mapproxy/cache/tile.py', """        if tile.coord is None:
+            return False
+        if cache_only:""", """        if cache_only:""", 'C16.d'),
+    M('M-C16d-mbtiles-none-io', 'mapproxy/cache/mbtiles.py', """    def load_tile(self, tile, with_metadata=False, dimensions=None):
+        if tile.source or tile.coord is None:
+            return True
+
+        cur = self.db.cursor()""", """    def load_tile(self, tile, with_metadata=False, dimensions=None):
+        if tile.source:
+            return True
+
+        cur = self.db.cursor()""", 'C16.d'),
 ]
